@@ -277,6 +277,9 @@ func freeRun(run *core.Run, rng *core.Rand, name string, rounds, opsPerProposer 
 			ok := false
 			for ctx.Err() == nil {
 				min := marks[c.subj.Name]
+				if isRestricted(c.token) {
+					min = 0 // the marker write may be invisible to this token: only the content is awaited
+				}
 				if min > 0 {
 					min--
 				}
@@ -287,7 +290,7 @@ func freeRun(run *core.Run, rng *core.Rand, name string, rounds, opsPerProposer 
 					continue
 				}
 				idx, got = q.Index, c.subj.render(q.Value)
-				if idx >= marks[c.subj.Name] && (got == want || !c.strict) {
+				if (idx >= marks[c.subj.Name] || isRestricted(c.token)) && (got == want || !c.strict) {
 					ok = true
 					break
 				}
